@@ -463,7 +463,7 @@ func histConfig(g *pkgGen, i int) *genOut {
 		&files.Content{Source: "src/f1", Destination: fmt.Sprintf("/etc/hist%d/optional.conf", i), Type: files.TypeConfigMissingOK})
 	// a pattern entry whose match collides with an earlier entry that only rpm ships: rpm's packaging fails, the others'
 	// succeed - and the failure leaves nothing behind in the shared configuration
-	if i%4 == 3 && i < 50 { // (not in the configurations below that another format cannot be built from: which of two failures validation reports first is not fixed)
+	if i%4 >= 2 && (i < 50 || i >= 100) { // (not in the configurations below that another format cannot be built from: which of two failures validation reports first is not fixed)
 		c.Contents = append(c.Contents,
 			&files.Content{Source: "src/f1", Destination: fmt.Sprintf("/usr/share/hist%d/x", i), Packager: "rpm"},
 			&files.Content{Source: "src/d/*", Destination: fmt.Sprintf("/usr/share/hist%d/", i)})
